@@ -213,6 +213,7 @@ def run_history(seed, variant, k):
                 return
             session = cluster.connect(wait_for_all_pools=(flavour != 'requests'))
             S['session'] = session
+            S['connect_steps'] = ch.n
             if S['stop']:
                 return
             hosts = dict((h.endpoint.address, h) for h in cluster.metadata.all_hosts())
@@ -318,6 +319,7 @@ def run_history(seed, variant, k):
                 R['info']['conns'] = len(env.net.conns)
                 R['info']['creators'] = sorted(set(c.sim_creator for c in env.net.conns))
                 R['info']['log'] = list(S['log'])
+                R['info']['connect_steps'] = S.get('connect_steps', 0)
             if S['cluster'] is not None:
                 S['cluster'].shutdown()
             w.settle(until=w.now + 30.0)
@@ -570,7 +572,9 @@ def run(ctx):
             ctx.count("variants_started")
             ctx.count("steps_in_uninterrupted_histories", N)
             ks = list(range(0, N + 1))
-            random.Random(seed).shuffle(ks)         # a partial enumeration (time budget) is spread evenly
+            random.Random(seed).shuffle(ks)         # a partial enumeration (time budget) is spread evenly ...
+            c0 = R0['info'].get('connect_steps', 0)  # ... and starts with the steps after connect() (the connect phase is the same in every variant)
+            ks = [k for k in ks if k >= c0] + [k for k in ks if k < c0]
             done_all = True
             for k in ks:
                 if ctx.time_left(budget) < 0:
